@@ -816,10 +816,16 @@ class BaseRepo:
             progress=progress,
             depth=depth,
         )
-        target.object_store.add_pack_data(count, pack_data, progress)
-        for new_shallow, unshallow in pending_shallow:
+        # New graft points first, so that no commit with absent parents is
+        # ever in the store without being listed as shallow.
+        for new_shallow, _unshallow in pending_shallow:
             assert apply_shallow is not None
-            apply_shallow(new_shallow, unshallow)
+            if new_shallow:
+                apply_shallow(new_shallow, None)
+        target.object_store.add_pack_data(count, pack_data, progress)
+        for _new_shallow, unshallow in pending_shallow:
+            assert apply_shallow is not None
+            apply_shallow(None, unshallow)
         return self.get_refs()
 
     def fetch_pack_data(
